@@ -16,6 +16,7 @@ import numpy as np
 
 from ..core import AnalysisError, call_name, dotted
 from .. import chains, fdx
+from . import shared
 
 TAB = 'cirq.qis.clifford_tableau.CliffordTableau'
 CH = 'cirq.sim.clifford.stabilizer_state_ch_form.StabilizerStateChForm'
@@ -127,6 +128,8 @@ def run(ctx):
         'C13.d both stabilizer representations classify every exponent alike (identity / acts / ValueError) and as the gate family requires',
     ]
     ctx.not_decided += ['CH-form update algebra and amplitudes', 'measurement and rowsum loops', 'CliffordGate.from_unitary / decomposition / group laws']
+    shared.seed_restart_rule(ctx, 'C13.h', ['cirq-core/cirq/'], floor=2, only_files=['qis/clifford_tableau.py', 'sim/clifford/stabilizer_state_ch_form.py', 'qis/quantum_state_representation.py', 'sim/clifford/clifford_simulator.py', 'sim/clifford/stabilizer_sampler.py'])
+    ctx.decided.append('C13.h measure() of both stabilizer representations draws every axis from one generator (no per-axis restart of an integer seed)')
     ci = repo.cls(TAB)
     rel = ci.mod.rel
 
